@@ -25,7 +25,8 @@ RULE = (
     "the six conversions, year/month/week lengths, year ranges, week-year "
     "starts, iter_months_days, point +- duration, add_months, point - point, "
     "point views, comparison/hash, validation of field tuples, text parsing, "
-    "duration ordering, recurrence expansion, Unix time, CLI calls. Oracle: "
+    "duration ordering, recurrence expansion, Unix time, adding a year-less "
+    "day-of-month, CLI calls. Oracle: "
     "(a) every result equals the answer of a worker process that only ever "
     "used the current mode (4 workers per shard, JSON differential); (b) "
     "length queries equal the mode's definition on vlib.refcal; (c) the mode "
@@ -141,6 +142,9 @@ def concretise(cm, spec):
     if k == "add":
         return {"op": "add", "p": point_fields(cm, y, f, spec["rep"]),
                 "d": DURS[spec["d"]]}
+    if k == "add_trunc":
+        return {"op": "add_trunc", "p": point_fields(cm, y, f, "c"),
+                "dom": spec["dom"]}
     if k == "add_months":
         return {"op": "add_months", "p": point_fields(cm, y, f, spec["rep"]),
                 "n": spec["n"]}
@@ -321,6 +325,39 @@ def do_compute(state, spec, workers):
                         "days / %r s, the mode's year has %d days" % (
                             cm, op["a"]["years"], got[4], got[5],
                             R.ylen(cm, 2001)))
+    if op["op"] == "add_trunc" and isinstance(got, str):
+        # the next day with that day-of-month, by the mode's month lengths
+        base = dict(op["p"], hour_of_day=0, minute_of_hour=0, second_of_minute=0,
+                    time_zone_hour=0, time_zone_minute=0)
+        dn = M.kw_dn(cm, base)
+        while R.cal_from_dn(cm, dn)[2] != op["dom"]:
+            dn += 1
+        y, mo, d = R.cal_from_dn(cm, dn)
+        want_text = "%s%06d-%02d-%02dT00:00:00Z" % (
+            "-" if y < 0 else "+", abs(y), mo, d)
+        if got != want_text:
+            return op, ("definition: mode %s %s + ---%02d -> %s, the mode's "
+                        "calendar gives %s" % (cm, json.dumps(op["p"]),
+                                               op["dom"], got, want_text))
+    if op["op"] == "epoch" and isinstance(got, str):
+        # n seconds after 1970-01-01T00:00:00Z counted on the mode's calendar
+        n = op["n"]
+        dn = R.UNIX_EPOCH_DN[cm] + n // 86400
+        y, mo, d = R.cal_from_dn(cm, dn)
+        sod = n % 86400
+        want_text = "%04d-%02d-%02dT%02d:%02d:%02dZ" % (
+            y, mo, d, sod // 3600, sod % 3600 // 60, sod % 60)
+        if got != want_text:
+            return op, ("definition: mode %s %d s after the epoch -> %s, the "
+                        "mode's calendar gives %s" % (cm, n, got, want_text))
+    if op["op"] == "unix" and isinstance(got, str):
+        base = dict(op["p"], hour_of_day=0, minute_of_hour=0, second_of_minute=0,
+                    time_zone_hour=0, time_zone_minute=0)
+        want = (M.kw_dn(cm, base) - R.UNIX_EPOCH_DN[cm]) * 86400
+        if got != str(want):
+            return op, ("definition: mode %s %s is %s s after the epoch, the "
+                        "mode's calendar gives %d" % (cm, json.dumps(op["p"]),
+                                                      got, want))
     if op["op"] == "fn" and op["name"] in LEN_REF:
         ref = LEN_REF[op["name"]](cm, op["args"])
         if got != ref:
@@ -468,6 +505,11 @@ def make_machine(ctx, workers, seen):
             # days of a year and around the end of February: where the carry
             # depends on the mode's year and month lengths
             self._compute({"k": "add", "y": y, "f": f, "rep": rep, "d": d})
+
+        @rule(y=Y, f=st.sampled_from([31, 35, 45, 58, 59, 60, 0, 364]),
+              dom=st.sampled_from([28, 29, 29, 30, 1]))
+        def add_trunc(self, y, f, dom):
+            self._compute({"k": "add_trunc", "y": y, "f": f, "dom": dom})
 
         @rule(y=Y, f=Fr, rep=REP, n=st.sampled_from([1, -1, 11, -11, 12, 13, -13]))
         def add_months(self, y, f, rep, n):
